@@ -1,10 +1,12 @@
 (** Pair / single-point enumeration of the generic generators: which constraints are generated, for
-    which pairs, how many times; and where each table entry sits. *)
-From Coq Require Import List QArith Bool Arith Lia String.
+    which pairs, how many times; where each table entry sits; and where every constraint of a whole
+    plan run comes from ([run_plan_items_spec]). *)
+From Coq Require Import List QArith Bool Arith Lia String Permutation.
 From PV Require Import Model.Dict Model.Terms Model.ClassGen.
 Import ListNotations.
 Local Open Scope nat_scope.
 
+(** * enumerate *)
 Lemma enumerate_from_nth {A} (l : list A) k i a :
   In (i, a) (enumerate_from k l) <-> (k <= i /\ nth_error l (i - k) = Some a).
 Proof.
@@ -28,6 +30,9 @@ Qed.
 Lemma enumerate_from_length {A} (l : list A) k : List.length (enumerate_from k l) = List.length l.
 Proof. revert k; induction l; intros; cbn; [reflexivity|rewrite IHl; reflexivity]. Qed.
 
+Lemma enumerate_length {A} (l : list A) : List.length (enumerate l) = List.length l.
+Proof. apply enumerate_from_length. Qed.
+
 Lemma enumerate_from_nth_error {A} (l : list A) k i :
   nth_error (enumerate_from k l) i = option_map (fun a => (k + i, a)) (nth_error l i).
 Proof.
@@ -37,6 +42,23 @@ Proof.
     + replace (k + 0) with k by lia. reflexivity.
     + rewrite IH. replace (S k + i) with (k + S i) by lia. reflexivity.
 Qed.
+
+Lemma enumerate_nth_error {A} (l : list A) i :
+  nth_error (enumerate l) i = option_map (fun a => (i, a)) (nth_error l i).
+Proof. unfold enumerate. rewrite enumerate_from_nth_error. reflexivity. Qed.
+
+Lemma map_fst_enumerate_from {A} (l : list A) k : map fst (enumerate_from k l) = seq k (List.length l).
+Proof. revert k; induction l; intros; cbn; [reflexivity|rewrite IHl; reflexivity]. Qed.
+
+Lemma map_snd_enumerate_from {A} (l : list A) k : map snd (enumerate_from k l) = l.
+Proof. revert k; induction l; intros; cbn; [reflexivity|rewrite IHl; reflexivity]. Qed.
+
+(** * grids of optional cells *)
+Definition row_flat {A} (row : list (option A)) : list A :=
+  flat_map (fun o => match o with Some a => [a] | None => [] end) row.
+
+Lemma flatten_opts_cons {A} (r : list (option A)) rs : flatten_opts (r :: rs) = row_flat r ++ flatten_opts rs.
+Proof. reflexivity. Qed.
 
 Lemma in_flatten_opts {A} (rows : list (list (option A))) a :
   In a (flatten_opts rows) <-> exists row, In row rows /\ In (Some a) row.
@@ -48,56 +70,159 @@ Proof.
     split; [exact H|left; reflexivity].
 Qed.
 
-Definition pair_name (st : fstate) (cname : string) (si sj : sample) (i j : nat) : string :=
-  ("IC_" ++ f_id st ++ "_" ++ cname ++ "(" ++ point_id si i ++ ", " ++ point_id sj j ++ ")")%string.
-
-(** which ordered pairs get a constraint *)
-Definition pair_selected (sym : bool) (i j : nat) : Prop := i <> j /\ (sym = true -> i < j).
-
-Lemma pair_selected_dec sym i j :
-  (Nat.eqb i j || (Nat.ltb j i && sym)) = false <-> pair_selected sym i j.
+Lemma flatten_opts_grid {A B C} (p : A -> B -> bool) (g : A -> B -> C) l1 l2 :
+  flatten_opts (map (fun a => map (fun b => if p a b then None else Some (g a b)) l2) l1)
+  = map (fun ab => g (fst ab) (snd ab)) (filter (fun ab => negb (p (fst ab) (snd ab))) (list_prod l1 l2)).
 Proof.
-  unfold pair_selected. rewrite orb_false_iff, andb_false_iff, Nat.eqb_neq, Nat.ltb_ge.
+  unfold flatten_opts. induction l1 as [|a l1 IH]; cbn [map flat_map list_prod]; [reflexivity|].
+  rewrite filter_app, map_app, IH. f_equal.
+  clear IH. induction l2 as [|b l2 IH2]; cbn; [reflexivity|].
+  destruct (p a b); cbn; rewrite IH2; reflexivity.
+Qed.
+
+Lemma map_list_prod {A B A' B'} (f : A -> A') (g : B -> B') l1 l2 :
+  map (fun ab => (f (fst ab), g (snd ab))) (list_prod l1 l2) = list_prod (map f l1) (map g l2).
+Proof.
+  induction l1 as [|a l1 IH]; cbn; [reflexivity|].
+  rewrite map_app, IH, !map_map. reflexivity.
+Qed.
+
+Lemma NoDup_app_intro {A} (l1 l2 : list A) :
+  NoDup l1 -> NoDup l2 -> (forall a, In a l1 -> ~ In a l2) -> NoDup (l1 ++ l2).
+Proof.
+  intros H1 H2 Hd. induction H1 as [|a l1 Hna H1 IH]; cbn; [exact H2|].
+  constructor.
+  - rewrite in_app_iff. intros [H|H]; [contradiction|]. apply (Hd a); [left; reflexivity|exact H].
+  - apply IH. intros b Hb. apply Hd. right. exact Hb.
+Qed.
+
+Lemma NoDup_list_prod {A B} (l1 : list A) (l2 : list B) : NoDup l1 -> NoDup l2 -> NoDup (list_prod l1 l2).
+Proof.
+  intros H1 H2. induction H1 as [|a l1 Hna H1 IH]; cbn; [constructor|].
+  apply NoDup_app_intro; [|exact IH|].
+  - clear -H2. induction H2 as [|b l2 Hnb H2 IH]; cbn; constructor; [|exact IH].
+    intros Hin. apply in_map_iff in Hin as [y [Hy Hin]]. injection Hy as ->. contradiction.
+  - intros [x y] Hin Hin2. apply in_map_iff in Hin as [y' [Hy _]]. injection Hy as <- <-.
+    apply in_prod_iff in Hin2 as [Hin2 _]. contradiction.
+Qed.
+
+Lemma NoDup_map_filter_local {A B} (f : A -> B) (p : A -> bool) l :
+  NoDup (map f l) -> NoDup (map f (filter p l)).
+Proof.
+  induction l as [|a l IH]; cbn; [intros; constructor|]. intros H. inversion H as [|? ? Hna Hnd]; subst.
+  destruct (p a); cbn; [constructor|]; auto.
+  intros Hin. apply Hna. apply in_map_iff in Hin as [x [Hx Hin]]. apply filter_In in Hin as [Hin _].
+  apply in_map_iff. exists x. auto.
+Qed.
+
+(** * which ordered pairs get a constraint *)
+Definition pair_selected (sym : bool) (i j : nat) (si sj : sample) : Prop :=
+  s_uid si <> s_uid sj /\ (sym = true -> i <= j).
+
+Lemma skip_pair_false sym i j si sj : skip_pair sym i j si sj = false <-> pair_selected sym i j si sj.
+Proof.
+  unfold skip_pair, pair_selected. rewrite orb_false_iff, andb_false_iff, Nat.eqb_neq, Nat.ltb_ge.
   destruct sym; split; intros H.
-  - destruct H as [H1 [H2|H2]]; [|discriminate]. split; [exact H1|]. intros _. lia.
-  - destruct H as [H1 H2]. split; [exact H1|]. left. specialize (H2 eq_refl). lia.
+  - destruct H as [H1 [H2|H2]]; [|discriminate]. split; [exact H1|]. intros _. exact H2.
+  - destruct H as [H1 H2]. split; [exact H1|]. left. exact (H2 eq_refl).
   - split; [tauto|discriminate].
   - split; [tauto|right; reflexivity].
+Qed.
+
+Definition ipair := (nat * sample)%type.
+Definition pskip (sym : bool) (a b : ipair) : bool := skip_pair sym (fst a) (fst b) (snd a) (snd b).
+Definition pcitem (st : fstate) (cname : string) (f : cterm) (a b : ipair) : citem :=
+  mkC (Some (pair_name st cname (snd a) (snd b) (fst a) (fst b))) (inst st f (snd a) (snd b)).
+
+(** the selected (position, sample) pairs in generation order *)
+Definition sel_pairs (sym : bool) (l1 l2 : list sample) : list (ipair * ipair) :=
+  filter (fun ab => negb (pskip sym (fst ab) (snd ab))) (list_prod (enumerate l1) (enumerate l2)).
+
+Lemma gen_pairs_eq st l1 l2 cname f sym :
+  gen_pairs st l1 l2 cname f sym
+  = map (fun a => map (fun b => if pskip sym a b then None else Some (pcitem st cname f a b)) (enumerate l2))
+        (enumerate l1).
+Proof.
+  unfold gen_pairs. apply map_ext. intros [i si]. apply map_ext. intros [j sj]. reflexivity.
+Qed.
+
+(** the constraints appended to list_of_class_constraints are, in order, the images of the selected
+    pairs: one constraint per selected pair ... *)
+Theorem gen_pairs_flat st l1 l2 cname f sym :
+  flatten_opts (gen_pairs st l1 l2 cname f sym)
+  = map (fun ab => pcitem st cname f (fst ab) (snd ab)) (sel_pairs sym l1 l2).
+Proof. rewrite gen_pairs_eq. apply flatten_opts_grid. Qed.
+
+(** ... the selected pairs are exactly the pairs of positions (i, j) that are not skipped ... *)
+Theorem sel_pairs_In sym l1 l2 i si j sj :
+  In ((i, si), (j, sj)) (sel_pairs sym l1 l2) <->
+  nth_error l1 i = Some si /\ nth_error l2 j = Some sj /\ pair_selected sym i j si sj.
+Proof.
+  unfold sel_pairs. rewrite filter_In, in_prod_iff, !enumerate_nth. cbn [fst snd]. unfold pskip. cbn [fst snd].
+  rewrite negb_true_iff, skip_pair_false. tauto.
+Qed.
+
+(** ... and no pair of positions occurs twice. *)
+Theorem sel_pairs_NoDup sym l1 l2 :
+  NoDup (map (fun ab => (fst (fst ab), fst (snd ab))) (sel_pairs sym l1 l2)).
+Proof.
+  unfold sel_pairs. apply NoDup_map_filter_local.
+  rewrite (map_list_prod fst fst). unfold enumerate. rewrite !map_fst_enumerate_from.
+  apply NoDup_list_prod; apply seq_NoDup.
 Qed.
 
 (** Soundness and completeness of the pair enumeration: a constraint is generated exactly for the
     selected pairs (i,j) of positions, and it is the formula instantiated on these two samples. *)
 Theorem gen_pairs_spec st l1 l2 cname f sym c :
   In c (flatten_opts (gen_pairs st l1 l2 cname f sym)) <->
-  exists i j si sj, nth_error l1 i = Some si /\ nth_error l2 j = Some sj /\ pair_selected sym i j /\
+  exists i j si sj, nth_error l1 i = Some si /\ nth_error l2 j = Some sj /\ pair_selected sym i j si sj /\
                     c = mkC (Some (pair_name st cname si sj i j)) (inst st f si sj).
 Proof.
-  rewrite in_flatten_opts. unfold gen_pairs. split.
-  - intros [row [Hrow Hin]]. apply in_map_iff in Hrow as [[i si] [<- Hi]].
-    apply in_map_iff in Hin as [[j sj] [Heq Hj]].
-    apply enumerate_nth in Hi. apply enumerate_nth in Hj.
-    destruct (Nat.eqb i j || (Nat.ltb j i && sym)) eqn:Hsel; [discriminate|].
-    injection Heq as <-. exists i, j, si, sj. apply pair_selected_dec in Hsel. auto.
-  - intros (i & j & si & sj & Hi & Hj & Hsel & ->).
-    eexists. split.
-    + apply in_map_iff. exists (i, si). split; [reflexivity|]. apply enumerate_nth. exact Hi.
-    + apply in_map_iff. exists (j, sj). split; [|apply enumerate_nth; exact Hj].
-      apply pair_selected_dec in Hsel. rewrite Hsel. reflexivity.
+  rewrite gen_pairs_flat, in_map_iff. split.
+  - intros [[[i si] [j sj]] [<- Hin]]. apply sel_pairs_In in Hin. exists i, j, si, sj.
+    unfold pcitem. cbn [fst snd]. tauto.
+  - intros (i & j & si & sj & Hi & Hj & Hsel & ->). exists ((i, si), (j, sj)). split; [reflexivity|].
+    apply sel_pairs_In. tauto.
 Qed.
 
-(** the table has one row per sample of list 1, one column per sample of list 2, and entry (i,j) is
-    the constraint of that ordered pair, or None (rendered 0) where none is generated *)
+(** identities of the recorded triplets are pairwise distinct: position = identity *)
+Lemma uid_inj (l : list sample) i j si sj :
+  NoDup (map s_uid l) -> nth_error l i = Some si -> nth_error l j = Some sj -> s_uid si = s_uid sj -> i = j.
+Proof.
+  intros Hnd Hi Hj He.
+  assert (Hlen : i < List.length (map s_uid l)).
+  { rewrite map_length. apply nth_error_Some. rewrite Hi. discriminate. }
+  apply (proj1 (NoDup_nth_error (map s_uid l)) Hnd i j Hlen).
+  rewrite !nth_error_map, Hi, Hj. cbn. f_equal. exact He.
+Qed.
+
+(** the same list on both sides (distinct triplet objects): every ordered pair i <> j without the
+    symmetry flag, every unordered pair i < j with it *)
+Theorem pair_selected_same_list (l : list sample) sym i j si sj :
+  NoDup (map s_uid l) -> nth_error l i = Some si -> nth_error l j = Some sj ->
+  (pair_selected sym i j si sj <-> i <> j /\ (sym = true -> i < j)).
+Proof.
+  intros Hnd Hi Hj. unfold pair_selected. split.
+  - intros [Hu Hs]. assert (Hne : i <> j).
+    { intros ->. rewrite Hi in Hj. injection Hj as ->. apply Hu. reflexivity. }
+    split; [exact Hne|]. intros Ht. specialize (Hs Ht). lia.
+  - intros [Hne Hs]. split.
+    + intros He. apply Hne. exact (uid_inj l i j si sj Hnd Hi Hj He).
+    + intros Ht. specialize (Hs Ht). lia.
+Qed.
+
+(** * tables *)
 Theorem gen_pairs_table st l1 l2 cname f sym i j si sj :
   nth_error l1 i = Some si -> nth_error l2 j = Some sj ->
   exists row, nth_error (gen_pairs st l1 l2 cname f sym) i = Some row /\
     nth_error row j =
-    Some (if Nat.eqb i j || (Nat.ltb j i && sym) then None
+    Some (if skip_pair sym i j si sj then None
           else Some (mkC (Some (pair_name st cname si sj i j)) (inst st f si sj))).
 Proof.
   intros Hi Hj. unfold gen_pairs.
   eexists. split.
-  - rewrite nth_error_map. unfold enumerate. rewrite enumerate_from_nth_error, Hi. cbn. reflexivity.
-  - rewrite nth_error_map. unfold enumerate. rewrite enumerate_from_nth_error, Hj. cbn. reflexivity.
+  - rewrite nth_error_map, enumerate_nth_error, Hi. cbn. reflexivity.
+  - rewrite nth_error_map, enumerate_nth_error, Hj. cbn. reflexivity.
 Qed.
 
 Theorem gen_pairs_shape st l1 l2 cname f sym :
@@ -105,20 +230,77 @@ Theorem gen_pairs_shape st l1 l2 cname f sym :
   forall row, In row (gen_pairs st l1 l2 cname f sym) -> List.length row = List.length l2.
 Proof.
   unfold gen_pairs. split.
-  - rewrite map_length. apply enumerate_from_length.
-  - intros row H. apply in_map_iff in H as [[i si] [<- _]]. rewrite map_length. apply enumerate_from_length.
+  - rewrite map_length. apply enumerate_length.
+  - intros row H. apply in_map_iff in H as [[i si] [<- _]]. rewrite map_length. apply enumerate_length.
 Qed.
 
-(** number of generated constraints *)
-Fixpoint count_sel (sym : bool) (i : nat) (js : list nat) : nat :=
-  match js with
-  | [] => 0
-  | j :: js' => (if Nat.eqb i j || (Nat.ltb j i && sym) then 0 else 1) + count_sel sym i js'
-  end.
+(** numbering of the cells: cell contents are kept, [None] stays [None], and the number attached to
+    a [Some] cell is the position of its content in the flat (row-major) list, shifted by [off] *)
+Lemma row_flat_Some {A} (a : A) r : row_flat (Some a :: r) = a :: row_flat r.
+Proof. reflexivity. Qed.
+Lemma row_flat_None {A} (r : list (option A)) : row_flat (None :: r) = row_flat r.
+Proof. reflexivity. Qed.
 
-Definition single_name (st : fstate) (cname : string) (si : sample) (i : nat) : string :=
-  ("IC_" ++ f_id st ++ "_" ++ cname ++ "(" ++ point_id si i ++ ")")%string.
+Lemma number_row_cell {A} (row : list (option A)) off :
+  snd (number_row off row) = off + List.length (row_flat row) /\
+  List.length (fst (number_row off row)) = List.length row /\
+  forall j, match nth_error row j with
+       | None => nth_error (fst (number_row off row)) j = None
+       | Some None => nth_error (fst (number_row off row)) j = Some None
+       | Some (Some a) => exists p, nth_error (fst (number_row off row)) j = Some (Some (p, a)) /\ off <= p /\
+                                    nth_error (row_flat row) (p - off) = Some a
+       end.
+Proof.
+  revert off. induction row as [|o row IH]; intros off.
+  - cbn. split; [lia|]. split; [reflexivity|]. intros j. destruct j; reflexivity.
+  - destruct o as [a|]; cbn [number_row].
+    + specialize (IH (S off)). destruct (number_row (S off) row) as [r' n] eqn:E. cbn [fst snd] in *.
+      destruct IH as (Hn & Hl & Hc). rewrite row_flat_Some. cbn [List.length].
+      split; [lia|]. split; [lia|].
+      intros [|j]; cbn [nth_error].
+      * exists off. split; [reflexivity|]. split; [lia|]. replace (off - off) with 0 by lia. reflexivity.
+      * specialize (Hc j). destruct (nth_error row j) as [[b|]|]; [|exact Hc|exact Hc].
+        destruct Hc as (p & Hp & Hle & Hnth). exists p. split; [exact Hp|]. split; [lia|].
+        replace (p - off) with (S (p - S off)) by lia. exact Hnth.
+    + specialize (IH off). destruct (number_row off row) as [r' n] eqn:E. cbn [fst snd] in *.
+      destruct IH as (Hn & Hl & Hc). rewrite row_flat_None. cbn [List.length].
+      split; [exact Hn|]. split; [lia|].
+      intros [|j]; cbn [nth_error]; [reflexivity|]. exact (Hc j).
+Qed.
 
+Theorem number_rows_cell {A} (rows : list (list (option A))) off i row :
+  nth_error rows i = Some row ->
+  exists nrow, nth_error (number_rows off rows) i = Some nrow /\ List.length nrow = List.length row /\
+    forall j, match nth_error row j with
+         | None => nth_error nrow j = None
+         | Some None => nth_error nrow j = Some None
+         | Some (Some a) => exists p, nth_error nrow j = Some (Some (p, a)) /\ off <= p /\
+                                      nth_error (flatten_opts rows) (p - off) = Some a
+         end.
+Proof.
+  revert off i. induction rows as [|r rows IH]; intros off i Hi; [destruct i; discriminate|].
+  cbn [number_rows]. pose proof (number_row_cell r off) as Hr.
+  destruct (number_row off r) as [r' n] eqn:E. cbn [fst snd] in Hr. destruct Hr as (Hn & Hl & Hc).
+  destruct i as [|i]; cbn [nth_error] in *.
+  - injection Hi as <-. exists r'. split; [reflexivity|]. split; [exact Hl|]. intros j. specialize (Hc j).
+    destruct (nth_error r j) as [[a|]|]; [|exact Hc|exact Hc].
+    destruct Hc as (p & Hp & Hle & Hnth). exists p. split; [exact Hp|]. split; [exact Hle|].
+    rewrite flatten_opts_cons, nth_error_app1; [exact Hnth|]. apply nth_error_Some. rewrite Hnth. discriminate.
+  - destruct (IH n i Hi) as (nrow & Hnr & Hlen & Hcells). exists nrow. split; [exact Hnr|]. split; [exact Hlen|].
+    intros j. specialize (Hcells j). destruct (nth_error row j) as [[a|]|]; [|exact Hcells|exact Hcells].
+    destruct Hcells as (p & Hp & Hle & Hnth). exists p. split; [exact Hp|]. split; [lia|].
+    rewrite flatten_opts_cons, nth_error_app2 by lia.
+    replace (p - off - List.length (row_flat r)) with (p - n) by lia. exact Hnth.
+Qed.
+
+Lemma number_rows_length {A} (rows : list (list (option A))) off :
+  List.length (number_rows off rows) = List.length rows.
+Proof.
+  revert off. induction rows as [|r rows IH]; intros off; [reflexivity|]. cbn [number_rows].
+  destruct (number_row off r) as [r' n]. cbn. rewrite IH. reflexivity.
+Qed.
+
+(** * single-point conditions *)
 Theorem gen_singles_spec st l cname f c :
   In c (gen_singles st l cname f) <->
   exists i si, nth_error l i = Some si /\ c = mkC (Some (single_name st cname si i)) (inst st f si si).
@@ -132,76 +314,330 @@ Theorem gen_singles_nth st l cname f i si :
   nth_error l i = Some si ->
   nth_error (gen_singles st l cname f) i = Some (mkC (Some (single_name st cname si i)) (inst st f si si)).
 Proof.
-  intros Hi. unfold gen_singles, enumerate. rewrite nth_error_map, enumerate_from_nth_error, Hi. reflexivity.
+  intros Hi. unfold gen_singles. rewrite nth_error_map, enumerate_nth_error, Hi. reflexivity.
 Qed.
 
-(** exactly one constraint per selected pair: the number of generated constraints is the number of
-    selected positions (together with [gen_pairs_spec]: none missing, none twice). *)
-Definition sel_count (sym : bool) (i j : nat) : nat :=
-  if Nat.eqb i j || (Nat.ltb j i && sym) then 0 else 1.
+Lemma gen_singles_length st l cname f : List.length (gen_singles st l cname f) = List.length l.
+Proof. unfold gen_singles. rewrite map_length. apply enumerate_length. Qed.
 
-Lemma length_flat_map {A B} (f : A -> list B) l :
-  List.length (flat_map f l) = list_sum (map (fun x => List.length (f x)) l).
-Proof. induction l; cbn; [reflexivity|rewrite app_length, IHl; reflexivity]. Qed.
+Lemma row_flat_map_Some {A} (l : list A) : row_flat (map Some l) = l.
+Proof. induction l; cbn; [reflexivity|]. unfold row_flat in IHl. rewrite IHl. reflexivity. Qed.
 
-Lemma list_sum_enumerate {A} (g : nat -> nat) (l : list A) k :
-  list_sum (map (fun '(i, _) => g i) (enumerate_from k l)) = list_sum (map g (seq k (List.length l))).
-Proof. revert k; induction l as [|a l IH]; intros k; cbn; [reflexivity|rewrite IH; reflexivity]. Qed.
+Lemma flatten_opts_single {A} (l : list A) : flatten_opts [map Some l] = l.
+Proof. unfold flatten_opts. cbn. rewrite app_nil_r. apply row_flat_map_Some. Qed.
 
-Theorem gen_pairs_count st l1 l2 cname f sym :
-  List.length (flatten_opts (gen_pairs st l1 l2 cname f sym))
-  = list_sum (map (fun i => list_sum (map (sel_count sym i) (seq 0 (List.length l2)))) (seq 0 (List.length l1))).
+(** * what one plan item contributes *)
+Fixpoint item_cons (st : fstate) (it : plan_item) : list citem :=
+  match it with
+  | Pairs l1 l2 cname f sym => flatten_opts (gen_pairs st (get_list st l1) (get_list st l2) cname f sym)
+  | Singles l cname f => gen_singles st (get_list st l) cname f
+  | Guarded g it' => if guard_true st g then item_cons st it' else []
+  | AutoStationary => []
+  | LMI _ _ => []
+  | CrossEq f => flat_map (fun si => map (fun sj => mkC None (inst st f si sj)) (f_tpoints st)) (f_points st)
+  | BlockPairs cprefix f => gen_block_flat st cprefix f (f_points st)
+  end.
+
+Fixpoint item_lmis (st : fstate) (it : plan_item) : list (list (list edict)) :=
+  match it with
+  | LMI l entry => [map (fun si => map (fun sj => instX st entry si sj) (get_list st l)) (get_list st l)]
+  | Guarded g it' => if guard_true st g then item_lmis st it' else []
+  | _ => []
+  end.
+
+Fixpoint item_tables (st : fstate) (off : nat) (it : plan_item) : list table :=
+  match it with
+  | Pairs l1 l2 cname f sym =>
+      match get_list st l1 with
+      | [] => []
+      | _ => [mkT cname (number_rows off (gen_pairs st (get_list st l1) (get_list st l2) cname f sym))
+                  (labels (get_list st l1)) (labels (get_list st l2)) ("IC_" ++ f_id st)]
+      end
+  | Singles l cname f =>
+      [mkT cname (number_rows off [map Some (gen_singles st (get_list st l) cname f)])
+           ["0"%string] (labels (get_list st l)) ("IC_" ++ f_id st)]
+  | Guarded g it' => if guard_true st g then item_tables st off it' else []
+  | BlockPairs cprefix f =>
+      match f_points st with
+      | [] => []
+      | _ => map (block_table st cprefix f (f_points st) off) (seq 0 (f_nblocks st))
+      end
+  | _ => []
+  end.
+
+Fixpoint item_state (st : fstate) (it : plan_item) : fstate :=
+  match it with
+  | Guarded g it' => if guard_true st g then item_state st it' else st
+  | AutoStationary => match f_stat st with [] => auto_stationary st | _ => st end
+  | _ => st
+  end.
+
+Lemma genout_eta o : o = mkG (g_cons o ++ []) (g_lmis o ++ []) (g_tables o ++ []) (g_state o).
+Proof. destruct o. cbn. rewrite !app_nil_r. reflexivity. Qed.
+
+Lemma run_item_eq it o :
+  run_item it o = mkG (g_cons o ++ item_cons (g_state o) it) (g_lmis o ++ item_lmis (g_state o) it)
+                      (g_tables o ++ item_tables (g_state o) (List.length (g_cons o)) it)
+                      (item_state (g_state o) it).
 Proof.
-  unfold flatten_opts, gen_pairs. rewrite length_flat_map, map_map.
-  rewrite <- (list_sum_enumerate (fun i => list_sum (map (sel_count sym i) (seq 0 (List.length l2)))) l1 0).
-  unfold enumerate. f_equal. apply map_ext. intros [i si].
-  rewrite length_flat_map, map_map.
-  rewrite <- (list_sum_enumerate (sel_count sym i) l2 0). f_equal. apply map_ext. intros [j sj].
-  unfold sel_count. destruct (Nat.eqb i j || (Nat.ltb j i && sym)); reflexivity.
+  induction it as [l1 l2 cname f sym|l cname f|g it IH| |l entry|f|cprefix f]; cbn [run_item item_cons item_lmis item_tables item_state].
+  - unfold append_out. rewrite app_nil_r. reflexivity.
+  - unfold append_out. rewrite app_nil_r. reflexivity.
+  - destruct (guard_true (g_state o) g); [exact IH|apply genout_eta].
+  - rewrite !app_nil_r. destruct (f_stat (g_state o)); [reflexivity|destruct o; reflexivity].
+  - unfold append_out. rewrite !app_nil_r. reflexivity.
+  - unfold append_out. rewrite !app_nil_r. reflexivity.
+  - unfold append_out. rewrite app_nil_r. reflexivity.
 Qed.
 
-(** closed forms when both lists are the same list of n samples *)
-Lemma sel_count_nosym i j : sel_count false i j = if Nat.eqb i j then 0 else 1.
-Proof. unfold sel_count. rewrite andb_false_r, orb_false_r. reflexivity. Qed.
+(** where a constraint contributed by an item comes from *)
+Fixpoint item_src (st : fstate) (it : plan_item) (c : citem) : Prop :=
+  match it with
+  | Pairs l1 l2 cname f sym =>
+      exists i j si sj, nth_error (get_list st l1) i = Some si /\ nth_error (get_list st l2) j = Some sj /\
+                        pair_selected sym i j si sj /\
+                        c = mkC (Some (pair_name st cname si sj i j)) (inst st f si sj)
+  | Singles l cname f =>
+      exists i si, nth_error (get_list st l) i = Some si /\
+                   c = mkC (Some (single_name st cname si i)) (inst st f si si)
+  | Guarded g it' => guard_true st g = true /\ item_src st it' c
+  | AutoStationary => False
+  | LMI _ _ => False
+  | CrossEq f => exists si sj, In si (f_points st) /\ In sj (f_tpoints st) /\ c = mkC None (inst st f si sj)
+  | BlockPairs cprefix f =>
+      exists i j k si sj, nth_error (f_points st) i = Some si /\ nth_error (f_points st) j = Some sj /\
+                          same_tuple si sj = false /\ k < f_nblocks st /\
+                          c = mkC (Some (block_name st cprefix k si sj i j)) (instB st f k si sj)
+  end.
 
-Lemma row_count_nosym_gen i k m :
-  list_sum (map (sel_count false i) (seq k m)) = m - (if (k <=? i) && (i <? k + m) then 1 else 0).
+Fixpoint item_lmi_src (st : fstate) (it : plan_item) (m : list (list edict)) : Prop :=
+  match it with
+  | LMI l entry => m = map (fun si => map (fun sj => instX st entry si sj) (get_list st l)) (get_list st l)
+  | Guarded g it' => guard_true st g = true /\ item_lmi_src st it' m
+  | _ => False
+  end.
+
+Lemma block_grid_In (l : list sample) q :
+  In q (flatten_opts (block_grid l)) <->
+  exists i j si sj, q = (i, si, j, sj) /\ nth_error l i = Some si /\ nth_error l j = Some sj /\
+                    same_tuple si sj = false.
 Proof.
-  revert k. induction m as [|m IH]; intros k.
-  - cbn. reflexivity.
-  - change (seq k (S m)) with (k :: seq (S k) m). cbn [map list_sum]. rewrite IH, sel_count_nosym.
-    destruct (Nat.eqb_spec i k) as [->|Hne].
-    + replace ((S k <=? k) && (k <? S k + m)) with false
-        by (symmetry; apply andb_false_iff; left; apply Nat.leb_gt; lia).
-      replace ((k <=? k) && (k <? k + S m)) with true
-        by (symmetry; apply andb_true_iff; split; [apply Nat.leb_le|apply Nat.ltb_lt]; lia).
-      lia.
-    + destruct ((S k <=? i) && (i <? S k + m)) eqn:Hc.
-      * apply andb_true_iff in Hc as [H1 H2]. apply Nat.leb_le in H1. apply Nat.ltb_lt in H2.
-        replace ((k <=? i) && (i <? k + S m)) with true
-          by (symmetry; apply andb_true_iff; split; [apply Nat.leb_le|apply Nat.ltb_lt]; lia).
-        lia.
-      * replace ((k <=? i) && (i <? k + S m)) with false; [lia|].
-        symmetry. apply andb_false_iff. apply andb_false_iff in Hc as [Hc|Hc].
-        -- apply Nat.leb_gt in Hc. left. apply Nat.leb_gt. lia.
-        -- apply Nat.ltb_ge in Hc. right. apply Nat.ltb_ge. lia.
+  rewrite in_flatten_opts. unfold block_grid. split.
+  - intros [row [Hrow Hin]]. apply in_map_iff in Hrow as [[i si] [<- Hi]].
+    apply in_map_iff in Hin as [[j sj] [Heq Hj]]. apply enumerate_nth in Hi. apply enumerate_nth in Hj.
+    destruct (same_tuple si sj) eqn:Hs; [discriminate|]. injection Heq as <-. exists i, j, si, sj. auto.
+  - intros (i & j & si & sj & -> & Hi & Hj & Hs). eexists. split.
+    + apply in_map_iff. exists (i, si). split; [reflexivity|apply enumerate_nth; exact Hi].
+    + apply in_map_iff. exists (j, sj). split; [|apply enumerate_nth; exact Hj]. rewrite Hs. reflexivity.
 Qed.
 
-Lemma row_count_nosym n i : i < n -> list_sum (map (sel_count false i) (seq 0 n)) = n - 1.
+Theorem gen_block_spec st cprefix f l c :
+  In c (gen_block_flat st cprefix f l) <->
+  exists i j k si sj, nth_error l i = Some si /\ nth_error l j = Some sj /\ same_tuple si sj = false /\
+                      k < f_nblocks st /\
+                      c = mkC (Some (block_name st cprefix k si sj i j)) (instB st f k si sj).
 Proof.
-  intros Hi. rewrite row_count_nosym_gen.
-  replace ((0 <=? i) && (i <? 0 + n)) with true; [reflexivity|].
-  symmetry. apply andb_true_iff. split; [apply Nat.leb_le|apply Nat.ltb_lt]; lia.
+  unfold gen_block_flat. rewrite in_flat_map. split.
+  - intros [q [Hq Hin]]. apply block_grid_In in Hq as (i & j & si & sj & -> & Hi & Hj & Hs).
+    apply in_map_iff in Hin as [k [<- Hk]]. apply in_seq in Hk. exists i, j, k, si, sj.
+    repeat split; try assumption; lia.
+  - intros (i & j & k & si & sj & Hi & Hj & Hs & Hk & ->). exists (i, si, j, sj). split.
+    + apply block_grid_In. exists i, j, si, sj. auto.
+    + apply in_map_iff. exists k. split; [reflexivity|]. apply in_seq. lia.
 Qed.
 
-Theorem gen_pairs_count_same_nosym st l cname f :
-  List.length (flatten_opts (gen_pairs st l l cname f false)) = List.length l * (List.length l - 1).
+Theorem item_cons_spec st it c : In c (item_cons st it) <-> item_src st it c.
 Proof.
-  rewrite gen_pairs_count. set (n := List.length l).
-  assert (H : forall k m, k + m <= n ->
-             list_sum (map (fun i => list_sum (map (sel_count false i) (seq 0 n))) (seq k m)) = m * (n - 1)).
-  { intros k m. revert k. induction m as [|m IH]; intros k Hle; [reflexivity|].
-    change (seq k (S m)) with (k :: seq (S k) m). cbn [map list_sum].
-    rewrite IH by lia. rewrite row_count_nosym by lia. lia. }
-  rewrite (H 0 n) by lia. reflexivity.
+  induction it as [l1 l2 cname f sym|l cname f|g it IH| |l entry|f|cprefix f]; cbn [item_cons item_src].
+  - apply gen_pairs_spec.
+  - apply gen_singles_spec.
+  - destruct (guard_true st g); [rewrite IH; tauto|]. split; [intros []|intros [H _]; discriminate].
+  - tauto.
+  - tauto.
+  - rewrite in_flat_map. split.
+    + intros [si [Hsi Hin]]. apply in_map_iff in Hin as [sj [<- Hsj]]. exists si, sj. auto.
+    + intros (si & sj & Hsi & Hsj & ->). exists si. split; [exact Hsi|]. apply in_map_iff. exists sj. auto.
+  - apply gen_block_spec.
+Qed.
+
+Theorem item_lmis_spec st it m : In m (item_lmis st it) <-> item_lmi_src st it m.
+Proof.
+  induction it as [l1 l2 cname f sym|l cname f|g it IH| |l entry|f|cprefix f]; cbn [item_lmis item_lmi_src In]; try tauto.
+  - destruct (guard_true st g); [rewrite IH; tauto|]. split; [intros []|intros [H _]; discriminate].
+  - split; [intros [H|[]]; auto|intros ->; left; reflexivity].
+Qed.
+
+(** * whole plans *)
+Definition run_items (plan : list plan_item) (o : genout) : genout := fold_left (fun o it => run_item it o) plan o.
+
+Lemma run_plan_run_items plan st : run_plan plan st = run_items plan (mkG [] [] [] st).
+Proof. reflexivity. Qed.
+
+Lemma run_items_app p1 p2 o : run_items (p1 ++ p2) o = run_items p2 (run_items p1 o).
+Proof. unfold run_items. apply fold_left_app. Qed.
+
+Lemma run_items_cons_prefix plan o : exists cs, g_cons (run_items plan o) = g_cons o ++ cs.
+Proof.
+  revert o. induction plan as [|it plan IH]; intros o; [exists []; cbn; rewrite app_nil_r; reflexivity|].
+  cbn [run_items fold_left]. destruct (IH (run_item it o)) as [cs Hcs]. unfold run_items in Hcs. rewrite Hcs.
+  rewrite run_item_eq. cbn [g_cons]. rewrite <- app_assoc. eexists. reflexivity.
+Qed.
+
+Theorem run_items_cons plan o c :
+  In c (g_cons (run_items plan o)) <->
+  In c (g_cons o) \/ exists pre it post, plan = pre ++ it :: post /\ item_src (g_state (run_items pre o)) it c.
+Proof.
+  revert o. induction plan as [|it plan IH]; intros o.
+  - cbn. split; [auto|]. intros [H|(pre & it & post & H & _)]; [exact H|]. destruct pre; discriminate.
+  - change (run_items (it :: plan) o) with (run_items plan (run_item it o)). rewrite IH.
+    rewrite (run_item_eq it o) at 1. cbn [g_cons]. rewrite in_app_iff, item_cons_spec. split.
+    + intros [[H|H]|(pre & it' & post & -> & H)].
+      * left. exact H.
+      * right. exists [], it, plan. split; [reflexivity|exact H].
+      * right. exists (it :: pre), it', post. split; [reflexivity|exact H].
+    + intros [H|(pre & it' & post & Heq & H)]; [left; left; exact H|].
+      destruct pre as [|it0 pre]; cbn in Heq; injection Heq as <- ->.
+      * left. right. exact H.
+      * right. exists pre, it', post. split; [reflexivity|exact H].
+Qed.
+
+Theorem run_items_lmis plan o m :
+  In m (g_lmis (run_items plan o)) <->
+  In m (g_lmis o) \/ exists pre it post, plan = pre ++ it :: post /\ item_lmi_src (g_state (run_items pre o)) it m.
+Proof.
+  revert o. induction plan as [|it plan IH]; intros o.
+  - cbn. split; [auto|]. intros [H|(pre & it & post & H & _)]; [exact H|]. destruct pre; discriminate.
+  - change (run_items (it :: plan) o) with (run_items plan (run_item it o)). rewrite IH.
+    rewrite (run_item_eq it o) at 1. cbn [g_lmis]. rewrite in_app_iff, item_lmis_spec. split.
+    + intros [[H|H]|(pre & it' & post & -> & H)].
+      * left. exact H.
+      * right. exists [], it, plan. split; [reflexivity|exact H].
+      * right. exists (it :: pre), it', post. split; [reflexivity|exact H].
+    + intros [H|(pre & it' & post & Heq & H)]; [left; left; exact H|].
+      destruct pre as [|it0 pre]; cbn in Heq; injection Heq as <- ->.
+      * left. right. exact H.
+      * right. exists pre, it', post. split; [reflexivity|exact H].
+Qed.
+
+Theorem run_items_tables plan o t :
+  In t (g_tables (run_items plan o)) <->
+  In t (g_tables o) \/
+  exists pre it post, plan = pre ++ it :: post /\
+    In t (item_tables (g_state (run_items pre o)) (List.length (g_cons (run_items pre o))) it).
+Proof.
+  revert o. induction plan as [|it plan IH]; intros o.
+  - cbn. split; [auto|]. intros [H|(pre & it & post & H & _)]; [exact H|]. destruct pre; discriminate.
+  - change (run_items (it :: plan) o) with (run_items plan (run_item it o)). rewrite IH.
+    rewrite (run_item_eq it o) at 1. cbn [g_tables]. rewrite in_app_iff. split.
+    + intros [[H|H]|(pre & it' & post & -> & H)].
+      * left. exact H.
+      * right. exists [], it, plan. split; [reflexivity|exact H].
+      * right. exists (it :: pre), it', post. split; [reflexivity|exact H].
+    + intros [H|(pre & it' & post & Heq & H)]; [left; left; exact H|].
+      destruct pre as [|it0 pre]; cbn in Heq; injection Heq as <- ->.
+      * left. right. exact H.
+      * right. exists pre, it', post. split; [reflexivity|exact H].
+Qed.
+
+(** Every constraint in list_of_class_constraints after set_class_constraints() comes from one item
+    of the plan, instantiated on samples drawn from the function's lists in the state reached when
+    that item runs (the state only changes through AutoStationary). *)
+Theorem run_plan_items_spec plan st c :
+  In c (g_cons (run_plan plan st)) <->
+  exists pre it post, plan = pre ++ it :: post /\ item_src (g_state (run_plan pre st)) it c.
+Proof. rewrite !run_plan_run_items, run_items_cons. cbn [g_cons In]. tauto. Qed.
+
+Theorem run_plan_lmis_spec plan st m :
+  In m (g_lmis (run_plan plan st)) <->
+  exists pre it post, plan = pre ++ it :: post /\ item_lmi_src (g_state (run_plan pre st)) it m.
+Proof. rewrite !run_plan_run_items, run_items_lmis. cbn [g_lmis In]. tauto. Qed.
+
+(** plans in which the automatic stationary point can only be created by the first statement (all
+    shipped plans): every item sees the same state *)
+Fixpoint auto_free (it : plan_item) : bool :=
+  match it with AutoStationary => false | Guarded _ it' => auto_free it' | _ => true end.
+
+Definition auto_head_only (plan : list plan_item) : bool :=
+  match plan with AutoStationary :: rest => forallb auto_free rest | _ => forallb auto_free plan end.
+
+Definition start_state (plan : list plan_item) (st : fstate) : fstate :=
+  match plan with AutoStationary :: _ => item_state st AutoStationary | _ => st end.
+
+Lemma item_state_auto_free st it : auto_free it = true -> item_state st it = st.
+Proof.
+  induction it; cbn; try reflexivity; try discriminate. intros H. destruct (guard_true st g); auto.
+Qed.
+
+Lemma run_items_state_auto_free plan o : forallb auto_free plan = true -> g_state (run_items plan o) = g_state o.
+Proof.
+  revert o. induction plan as [|it plan IH]; intros o H; [reflexivity|]. cbn in H. apply andb_true_iff in H as [H1 H2].
+  change (run_items (it :: plan) o) with (run_items plan (run_item it o)). rewrite IH by exact H2.
+  rewrite run_item_eq. cbn [g_state]. apply item_state_auto_free. exact H1.
+Qed.
+
+Lemma forallb_app_l {A} (p : A -> bool) l1 l2 : forallb p (l1 ++ l2) = true -> forallb p l1 = true.
+Proof. rewrite forallb_app. intros H. apply andb_true_iff in H. tauto. Qed.
+
+Lemma run_plan_prefix_state plan st pre it post :
+  auto_head_only plan = true -> plan = pre ++ it :: post -> auto_free it = true ->
+  g_state (run_plan pre st) = start_state plan st.
+Proof.
+  intros Hh -> Hit. rewrite run_plan_run_items. destruct pre as [|it0 pre].
+  - cbn. destruct it; try reflexivity. discriminate.
+  - cbn [app] in *.
+    assert (Hcases : it0 = AutoStationary \/
+                     (auto_head_only (it0 :: pre ++ it :: post) = forallb auto_free ((it0 :: pre) ++ it :: post) /\
+                      start_state (it0 :: pre ++ it :: post) st = st)).
+    { destruct it0; auto. }
+    destruct Hcases as [->|[E1 E2]].
+    + cbn [auto_head_only start_state] in *.
+      change (run_items (AutoStationary :: pre) (mkG [] [] [] st))
+        with (run_items pre (run_item AutoStationary (mkG [] [] [] st))).
+      rewrite run_items_state_auto_free by exact (forallb_app_l _ _ _ Hh).
+      rewrite run_item_eq. reflexivity.
+    + rewrite E1 in Hh. rewrite E2. rewrite run_items_state_auto_free; [reflexivity|exact (forallb_app_l _ _ _ Hh)].
+Qed.
+
+Lemma item_src_auto_free st it c : item_src st it c -> auto_free it = true.
+Proof. induction it; cbn; try reflexivity; try tauto. Qed.
+
+Lemma item_lmi_src_auto_free st it m : item_lmi_src st it m -> auto_free it = true.
+Proof. induction it; cbn; try reflexivity; try tauto. Qed.
+
+Theorem run_plan_items_spec_simple plan st c :
+  auto_head_only plan = true ->
+  (In c (g_cons (run_plan plan st)) <-> exists it, In it plan /\ item_src (start_state plan st) it c).
+Proof.
+  intros Hh. rewrite run_plan_items_spec. split.
+  - intros (pre & it & post & Heq & Hsrc). exists it. split; [rewrite Heq; apply in_elt|].
+    rewrite <- (run_plan_prefix_state plan st pre it post Hh Heq (item_src_auto_free _ _ _ Hsrc)). exact Hsrc.
+  - intros (it & Hin & Hsrc). apply in_split in Hin as (pre & post & Heq). exists pre, it, post.
+    split; [exact Heq|].
+    rewrite (run_plan_prefix_state plan st pre it post Hh Heq (item_src_auto_free _ _ _ Hsrc)). exact Hsrc.
+Qed.
+
+Theorem run_plan_lmis_spec_simple plan st m :
+  auto_head_only plan = true ->
+  (In m (g_lmis (run_plan plan st)) <-> exists it, In it plan /\ item_lmi_src (start_state plan st) it m).
+Proof.
+  intros Hh. rewrite run_plan_lmis_spec. split.
+  - intros (pre & it & post & Heq & Hsrc). exists it. split; [rewrite Heq; apply in_elt|].
+    rewrite <- (run_plan_prefix_state plan st pre it post Hh Heq (item_lmi_src_auto_free _ _ _ Hsrc)). exact Hsrc.
+  - intros (it & Hin & Hsrc). apply in_split in Hin as (pre & post & Heq). exists pre, it, post.
+    split; [exact Heq|].
+    rewrite (run_plan_prefix_state plan st pre it post Hh Heq (item_lmi_src_auto_free _ _ _ Hsrc)). exact Hsrc.
+Qed.
+
+Theorem run_plan_state plan st : auto_head_only plan = true -> g_state (run_plan plan st) = start_state plan st.
+Proof.
+  intros Hh. rewrite run_plan_run_items. destruct plan as [|it0 plan]; [reflexivity|].
+  assert (Hcases : it0 = AutoStationary \/
+                   (auto_head_only (it0 :: plan) = forallb auto_free (it0 :: plan) /\ start_state (it0 :: plan) st = st)).
+  { destruct it0; auto. }
+  destruct Hcases as [->|[E1 E2]].
+  - cbn [auto_head_only start_state] in *.
+    change (run_items (AutoStationary :: plan) (mkG [] [] [] st))
+      with (run_items plan (run_item AutoStationary (mkG [] [] [] st))).
+    rewrite run_items_state_auto_free by exact Hh. rewrite run_item_eq. reflexivity.
+  - rewrite E1 in Hh. rewrite E2. rewrite run_items_state_auto_free; [reflexivity|exact Hh].
 Qed.
